@@ -58,6 +58,52 @@ def io_summaries(prog):
     return summ
 
 
+MUTATORS = ('update', 'pop', 'popitem', 'clear', 'setdefault', '__setitem__', '__delitem__')
+
+
+def records_flow(p, arg, ro, what='the records of the reader are not all handed to the writer'):
+    """write_many(arg): `arg` is the reader `ro` itself, or any number of unfiltered one-to-one stages over it (generator
+    expressions, pass-through generator functions, enumerate) whose element is the very record taken from the reader, and no
+    stage alters that record on its way -> list of failures"""
+    it = p.interp
+    arg = it.resolve(arg)
+    if arg is ro:
+        return []
+    stage, chain = arg, []
+    for _ in range(8):
+        if not isinstance(stage, IterV):
+            return [soft(f'{what}: write_many is given {arg!r}, which could not be followed back to the reader')]
+        if stage.filtered:
+            return [definite(f'{what}: a stage between the reader and the writer drops records ({stage!r})')]
+        chain.append(stage)
+        stage = it.resolve(stage.src) if stage.src is not None else None
+        if stage is ro:
+            break
+    else:
+        return [soft(f'{what}: write_many is given {arg!r}, which could not be followed back to the reader')]
+
+    def elems(v, depth=0):
+        v = it.resolve(v)
+        if isinstance(v, SymV) and v.kind == 'elem':
+            return [v]
+        if isinstance(v, TupleV) and depth < 3:
+            return [x for i in v.items for x in elems(i, depth + 1)]
+        return []
+    base = elems(chain[-1].elem)
+    final = it.resolve(arg.elem)
+    if not any(final is b for b in base):
+        return [soft(f'the record written is {final!r}, which could not be identified with the record taken from the reader')]
+    for e in p.events:
+        if e.kind in ('setitem', 'delitem') and any(it.resolve(e.data['obj']) is b for b in base):
+            return [definite(f'a stage between the reader and the writer alters the record it passes on '
+                             f'({"del " if e.kind == "delitem" else ""}record[{e.data["key"]!r}]'
+                             f'{" = ..." if e.kind == "setitem" else ""}): the record written is not the record read', e.node, firm=True)]
+        if e.kind == 'method' and e.data['name'] in MUTATORS and any(it.resolve(e.data['recv']) is b for b in base):
+            return [definite(f'a stage between the reader and the writer alters the record it passes on (record.{e.data["name"]}(...)): '
+                             f'the record written is not the record read', e.node, firm=True)]
+    return []
+
+
 def truthy(it, name, kind='any', choices=None):
     v = SymV(name, kind, choices)
     it.binds[('truth', name)] = True
@@ -65,7 +111,7 @@ def truthy(it, name, kind='any', choices=None):
 
 
 def cli_glue_ob(prog, res, oid, mod, tool, in_param, out_param, in_mode, out_mode, passthrough=(), formats_switch=False,
-                extra_kwargs=None):
+                extra_kwargs=None, text_encoding=None):
     """The cli_run glue of a tool: the named files are opened with the right modes and handed to the tool function together
     with the options chosen on the command line; with formats_switch, --no1014blocking turns both formats into 'vbs'."""
     from ..report import func_where
@@ -95,6 +141,12 @@ def cli_glue_ob(prog, res, oid, mod, tool, in_param, out_param, in_mode, out_mod
             u['outf'] = kw['out_format'] = SymV('out_format', 'str', choices=('vbs', '1014'))
         for k, v in (extra_kwargs or {}).items():
             kw[k] = v(it)
+        if text_encoding:
+            # the encoding option of the text (csv) file: given on the command line, or left out (argparse hands over None)
+            role, opt, _sink = text_encoding
+            given = it.choose(2, f'--{opt.replace("_", "-")} given / not given') in (0, None)
+            kw[opt] = truthy(it, opt) if given else ConstV(None)
+            u['text_enc'] = (given, kw[opt])
         it.user.update(u)
         return it.call_function(cfi, [], kw)
     summ_c = {tfi.short: tool_summary}
@@ -145,6 +197,27 @@ def cli_glue_ob(prog, res, oid, mod, tool, in_param, out_param, in_mode, out_mod
                 fails.append(definite(f'the {role} file is opened from {a[0] if a else None!r}, not from the {role} file name', e.node))
             if f.mode != mode_:
                 fails.append(definite(f'the {role} file is opened with mode {f.mode!r}, not {mode_!r}', e.node))
+            if text_encoding and text_encoding[0] == role:
+                _r, opt, sink = text_encoding
+                given, sym = u['text_enc']
+                enc = e.data['kwargs'].get('encoding', a[3] if len(a) > 3 else None)
+                if enc is None and '**' in e.data['kwargs']:
+                    ex_ = it.resolve(e.data['kwargs']['**'])
+                    enc = ex_.items.get('encoding') if isinstance(ex_, DictV) and not ex_.open else UnkV('**')
+                enc = it.resolve(enc) if enc is not None else None
+                if given:
+                    if enc is not sym:
+                        fails.append(definite(f'--{opt.replace("_", "-")} is given but the {role} text file is opened with encoding '
+                                              f'{enc!r}, not with the value of that option', e.node, firm=isinstance(enc, SymV)))
+                elif mode == 'inv':
+                    k = None if enc is None or isinstance(enc, ConstV) and enc.value is None else it.py_key(enc)
+                    if isinstance(k, str):
+                        import codecs
+                        try:
+                            k = codecs.lookup(k).name        # 'latin_1', 'latin1', 'iso-8859-1' name one codec
+                        except LookupError:
+                            pass
+                    sink.setdefault(mod, set()).add(k if (k is None or isinstance(k, str)) else '?')
         nb = it.binds.get(('truth', 'no1014blocking'))
         if formats_switch:
             for name, sym in (('in_format', u['inf']), ('out_format', u['outf'])):
@@ -171,7 +244,7 @@ CLI_ERROR_TOOLS = (('cli.mci_ipm_to_csv', ('cli.mci_ipm_to_csv.mci_ipm_to_csv',)
                    ('cli.paramconv', ('cli.paramconv.mci_ipm_param_encode',), None))
 
 
-def cli_error_runs(prog, res, mod, tools, func_key):
+def cli_error_runs(prog, res, mod, tools, func_key, deep=False):
     """cli_run of a tool interpreted with the conversion function summarised as "returns, or raises the library data error":
     -> Runs whose paths record the raised error (user['raised']) and what was handed to print_exception_details (user['reported'])"""
     from ..signals import Raised
@@ -194,11 +267,23 @@ def cli_error_runs(prog, res, mod, tools, func_key):
     if prog.has_func('cli.print_exception_details'):
         summ[prog.func('cli.print_exception_details').short] = report_summary
     for helper in ('cli.print_banner', 'cli.get_config', f'{mod}.print_check_details'):
+        if deep and helper.endswith('print_check_details'):
+            continue           # what the handler does after the report is part of the question
         if prog.has_func(helper):
             def helper_summary(it, f, args, kwargs, node, self_obj, helper=helper):
                 return DictV(open_=True, desc='get_config()') if helper.endswith('get_config') else ConstV(None)
             summ[prog.func(helper).short] = helper_summary
-    if prog.has_func('mciipm.ipm_info'):
+    if deep:
+        # the file inspection is interpreted; its two table-driven helpers (decided by C17) are replaced by their return shapes
+        def bm_summary(it, fi, args, kwargs, node, self_obj):
+            if it.choose(2, 'bitmap ok') in (0, None):
+                return TupleV([ConstV(True), ConstV(None)])
+            return TupleV([ConstV(False), it.sym_str('bitmap_reason', lo=1)])
+        for helper, sm in (('mciipm.bitmap_check', bm_summary),
+                           ('mciipm.block_1014_check', lambda it, fi, args, kwargs, node, self_obj: SymV('is_blocked', 'bool'))):
+            if prog.has_func(helper):
+                summ[prog.func(helper).short] = sm
+    if prog.has_func('mciipm.ipm_info') and not deep:
         summ[prog.func('mciipm.ipm_info').short] = lambda it, f, args, kwargs, node, self_obj: DictV(open_=True, desc='ipm_info()')
 
     def entry(it):
@@ -210,7 +295,7 @@ def cli_error_runs(prog, res, mod, tools, func_key):
             fis = [prog.func(t) for t in tools if prog.has_func(t)]
             kw[func_key] = FuncV(fis[it.choose(len(fis), 'sub-command') or 0])
         return it.call_function(cfi, [], kw)
-    return Runs(prog, entry, summaries=summ, res=res), cfi
+    return Runs(prog, entry, summaries=summ, res=res, raise_ops=deep), cfi
 
 
 def cli_error_obs(prog, res, which):
@@ -252,4 +337,31 @@ def cli_error_obs(prog, res, which):
         if ob.verdict == PROVED and not seen['raised']:
             ob.verdict, ob.detail = UNDECIDED, 'the conversion function is not called by cli_run on any explored path: nothing was judged'
         out.append(ob)
+        if which == 'escape':
+            # ... and nothing else leaves it while the error is being reported: the handler is interpreted with its own helpers
+            # and the file inspection it consults (ipm_info), operations that can fail are allowed to fail
+            runs_h, _ = cli_error_runs(prog, res, mod, tools, func_key, deep=True)
+            seen_h = {'raised': 0}
+
+            def chk_h(p, mode):
+                if p.interp.user.get('raised') is None:
+                    return []
+                seen_h['raised'] += mode == 'inv'
+                if p.outcome != 'raise' or p.value is p.interp.user['raised']:
+                    return []
+                exc = p.value
+                what = f'{exc!r}' + (f' ({exc.op})' if getattr(exc, 'op', None) else '')
+                msg = (f'while the library data error of the conversion is being reported, {what} leaves cli_run: the operator gets '
+                       f'a traceback instead of the diagnostic')
+                node = getattr(exc, 'raise_node', None) or getattr(exc, 'node', None)
+                if getattr(exc, 'definite', False) or getattr(exc, 'op', None) is None:
+                    return [definite(msg, node, firm=True)]
+                return [soft(msg, node)]
+            chk_h.no_return_ok = True
+            obh = runs_h.judge('C07.b', f'{mod}.cli_run: no other exception leaves the tool entry point while the library data error '
+                                        f'is reported', func_where(cfi), 'except MciIpmDataError: <report>; return -1', chk_h,
+                               rule=f'C07.b.handler.{mod}', unknown_ok=benign_unknown)
+            if obh.verdict == PROVED and not seen_h['raised']:
+                obh.verdict, obh.detail = UNDECIDED, 'the conversion function is not called by cli_run on any explored path: nothing was judged'
+            out.append(obh)
     return out
